@@ -9,6 +9,7 @@
 package xplor
 
 import (
+	"strings"
 	"crypto/sha256"
 	"encoding/hex"
 	"encoding/json"
@@ -160,6 +161,18 @@ func (c *Ctx) Violation(sig, desc string, replay interface{}) {
 		}
 	} else {
 		c.res.Counters["violations_dropped"]++
+	}
+}
+
+// Mark records the case that is about to be executed (as a replay object). If the code under test
+// then ends the whole process on its own (aergo's logger.Fatal -> os.Exit(1)), which cannot be caught
+// in-process, the runner turns the last mark into a violation with signature "node-fatal".
+func (c *Ctx) Mark(replay interface{}) {
+	if c.outPath == "" {
+		return
+	}
+	if b, err := json.Marshal(replay); err == nil {
+		os.WriteFile(c.outPath+".mark", b, 0o644)
 	}
 }
 
@@ -367,6 +380,19 @@ func runParent(ck Check, tier string, seed int64, jobs int) int {
 						results[i] = &r
 					}
 				}
+				// the code under test ended the process itself (logger.Fatal): the case marked last is a violation
+				if ee, isExit := err.(*exec.ExitError); isExit && ee.ExitCode() == 1 {
+					if msg := fatalLine(string(lb)); msg != "" {
+						if mb, e := os.ReadFile(out + ".mark"); e == nil {
+							if results[i] == nil {
+								results[i] = &Result{Counters: map[string]int64{}}
+							}
+							results[i].Violations = append(results[i].Violations, Violation{Sig: "node-fatal",
+								Desc: "the code under test ended the process (logger.Fatal, exit status 1) while executing the marked case: " + msg, Replay: mb})
+							errs[i] = nil
+						}
+					}
+				}
 				return
 			}
 			b, err := os.ReadFile(out)
@@ -465,6 +491,13 @@ func runParent(ck Check, tier string, seed int64, jobs int) int {
 			obs[k] = string(o)
 			if ee, isExit := err.(*exec.ExitError); !isExit || ee.ExitCode() != 1 {
 				ok = false
+			}
+			if v.Sig == "node-fatal" {
+				// the replay dies the same way; compared without the time stamps of the log
+				obs[k] = fatalLine(obs[k])
+				if obs[k] == "" {
+					ok = false
+				}
 			}
 		}
 		if !ok || obs[0] != obs[1] {
@@ -576,4 +609,21 @@ func writeReplay(id string, v Violation) string {
 	b, _ := json.MarshalIndent(f, "", " ")
 	os.WriteFile(p, b, 0o644)
 	return p
+}
+
+// fatalLine returns message and error of the last fatal-level line of an aergo log ("" if none).
+func fatalLine(log string) string {
+	lines := strings.Split(log, "\n")
+	for i := len(lines) - 1; i >= 0; i-- {
+		l := lines[i]
+		if !strings.Contains(l, `"level":"fatal"`) {
+			continue
+		}
+		var m map[string]interface{}
+		if json.Unmarshal([]byte(l), &m) != nil {
+			return "fatal log line"
+		}
+		return fmt.Sprintf("module=%v message=%q error=%v", m["module"], m["message"], m["error"])
+	}
+	return ""
 }
